@@ -18,6 +18,29 @@ package ipldutil
 //@   lenient
 //@   safety off
 //@   watch budget0: t.budget.LinkBudget
-//@   modifies t.isDone, t.completionErr, t.currentContext, Budget.LinkBudget, Budget.NodeBudget
+//@   modifies t.isDone, t.completionErr, t.currentContext, Budget.LinkBudget, Budget.NodeBudget, tPanicErr
 //@   callsite LinkSystem.Load: assert t.budget == nil || (old(t.budget.LinkBudget) >= 1 && t.budget.LinkBudget == old(t.budget.LinkBudget) - 1)
 //@   callsite traverser.writeDone argis "&traversal.ErrBudgetExceeded": assert t.budget != nil && old(t.budget.LinkBudget) <= 0
+
+//@ -- ============================ C22: a panic below the traversal goroutine ends that traversal with an error ============================
+//@ ghost tPanicErr error        -- what the traverser's panic handler returned last
+//@ func traverser$panicHandler
+//@   assumed
+//@   modifies tPanicErr
+//@   ghost tPanicErr := result
+//@ -- the deferred recovery of the traversal goroutine: recover() goes to the handler; if it reports a panic, the traversal is
+//@ -- completed with exactly that error (the user of the traverser sees it as the request's error); the goroutine always
+//@ -- signals that it stopped
+//@ func traverser.start.func2
+//@   lenient
+//@   safety off
+//@   modifies tPanicErr, t.isDone, t.completionErr, t.currentContext
+//@   callsite traverser$panicHandler argis "recover()": assert true
+//@   callsite traverser.writeDone: assert tPanicErr != nil && $err == tPanicErr
+//@   ensures tPanicErr != nil ==> t.isDone && t.completionErr == tPanicErr
+//@   ensures tPanicErr == nil ==> t.isDone == old(t.isDone) && t.completionErr == old(t.completionErr)
+//@ -- the handler is built from the builder's own callback
+//@ func TraversalBuilder.Start
+//@   lenient
+//@   safety off
+//@   callsite panics.MakeHandler: assert $cb == tb.PanicCallback
